@@ -38,7 +38,7 @@ Proof. exact mounted_means_complete_shallow. Qed.
 Print Assumptions C08_mounted_means_complete.
 
 (* ---------------------------------------------------------------- (b) the state is the documented one *)
-(* Full statement, FALSE of the model (C08_refuted_1 .. 6 below):
+(* Full statement, FALSE of the model (C08_refuted_2, 3, 4, 7, 8 below):
      forall cfg w e um, C08.step_spec cfg w (LC.view_of_model cfg w e CProbe um) = true.
    Proved under decidable hypotheses; [sources_agree] is the one named in the task. *)
 Theorem C08_state_is_documented_partial : forall cfg w e um,
@@ -47,7 +47,7 @@ Theorem C08_state_is_documented_partial : forall cfg w e um,
   layer_names_distinct cfg w = true ->
   sources_agree cfg w = true ->
   dir_test_agrees cfg w = true ->
-  no_foreign_on_missing_source cfg w = true ->
+  no_shown_on_missing_source cfg w = true ->
   C08.step_spec cfg w (LC.view_of_model cfg w e CProbe um) = true.
 Proof. exact state_is_documented_partial. Qed.
 Print Assumptions C08_state_is_documented_partial.
@@ -57,7 +57,7 @@ Theorem C08_state_is_documented_syntactic_partial : forall cfg w e um,
   LC.wf_cfg cfg = true -> cfg_dirs_ok cfg = true ->
   wf_table (ks_tab (LC.wo_ks w)) = true -> regular_table (ks_tab (LC.wo_ks w)) = true ->
   fs_paths_ok (LC.wo_fs w) = true -> sources_shallow cfg w = true ->
-  own_mounts_shown cfg w = true -> no_foreign_on_missing_source cfg w = true ->
+  own_mounts_shown cfg w = true -> no_shown_on_missing_source cfg w = true ->
   C08.step_spec cfg w (LC.view_of_model cfg w e CProbe um) = true.
 Proof. exact state_is_documented_syntactic. Qed.
 Print Assumptions C08_state_is_documented_syntactic_partial.
@@ -66,7 +66,7 @@ Print Assumptions C08_state_is_documented_syntactic_partial.
 (* whenever the kernel table shows mount k to be a bind of src, GetMountSources offers src *)
 Theorem C08_shown_bind_expected : forall T k src ty,
   regular_table T = true -> In k T -> LCS.is_bind_type ty = true ->
-  beq (k_fstype k) overlay = false ->
+  ovl_root k = false ->
   is_abs src = true -> beq (clean src) src = true -> beq src (k_mp k) = false ->
   LCS.shows_source T k src ty = true ->
   source_is_expected (ViewP.devs_of T []) (mount_of_k k) src = true.
@@ -74,7 +74,7 @@ Proof. exact shown_bind_expected. Qed.
 Print Assumptions C08_shown_bind_expected.
 
 Theorem C08_shown_fs_expected : forall T k src ty,
-  In k T -> LCS.is_bind_type ty = false -> beq (k_fstype k) overlay = false ->
+  In k T -> LCS.is_bind_type ty = false -> ovl_root k = false ->
   beq (k_root k) [slash] = true -> dev_named T k = true ->
   LCS.shows_source T k src ty = true ->
   source_is_expected (ViewP.devs_of T []) (mount_of_k k) src = true.
@@ -111,7 +111,7 @@ Print Assumptions C08_dir_test_agrees_of_shallow.
 Theorem C08_model_step_partial : forall cfg w e cmd um,
   LC.wf_cfg cfg = true -> is_dir (LC.wo_fs w) [sl] = true ->
   wf_table (ks_tab (LC.wo_ks w)) = true -> cfg_dirs_ok cfg = true -> layer_names_distinct cfg w = true ->
-  sources_agree cfg w = true -> dir_test_agrees cfg w = true -> no_foreign_on_missing_source cfg w = true ->
+  sources_agree cfg w = true -> dir_test_agrees cfg w = true -> no_shown_on_missing_source cfg w = true ->
   C08.step_spec cfg w (LC.view_of_model cfg w e cmd um) = true.
 Proof. exact model_step_partial. Qed.
 Print Assumptions C08_model_step_partial.
@@ -124,21 +124,35 @@ Theorem C08_hyps_satisfiable :
   /\ cfg_dirs_ok ex_cfg = true /\ layer_names_distinct ex_cfg ex_w1 = true /\ fs_paths_ok (LC.wo_fs ex_w1) = true
   /\ sources_agree ex_cfg ex_w1 = true /\ own_mounts_shown ex_cfg ex_w1 = true
   /\ dir_test_agrees ex_cfg ex_w1 = true /\ sources_shallow ex_cfg ex_w1 = true
-  /\ no_foreign_on_missing_source ex_cfg ex_w1 = true
+  /\ no_shown_on_missing_source ex_cfg ex_w1 = true
   /\ states ex_cfg ex_w1 [] = Some [(bs "base", st_mounted_busy); (bs "dev", st_mounted)].
 Proof. vm_compute. repeat split; reflexivity. Qed.
 Print Assumptions C08_hyps_satisfiable.
 
-(* ---------------------------------------------------------------- refutations without them *)
-Theorem C08_refuted_1 : probe_spec ex_cfg w_foreign [] = false.            (* foreign mount, missing source *)
+(* ---------------------------------------------------------------- repaired in round 2 *)
+(* the worlds that refuted the CProbe clause in round 1 and whose cause was repaired in the Go
+   code and the model now satisfy it, with all hypotheses true *)
+Theorem C08_foreign_on_missing_source_is_error : probe_spec ex_cfg w_foreign [] = true.
 Proof. vm_compute. reflexivity. Qed.
+Theorem C08_right_name_wrong_type_is_error : probe_spec ex_cfg w_type [] = true.
+Proof. vm_compute. reflexivity. Qed.
+(* `mount dev` with an import out of dev's own overlay-mounted build root succeeds, and status
+   afterwards reports the documented states *)
+Theorem C08_bind_out_of_overlay_is_mounted :
+  LC.v_res (LC.view_of_model ex_cfg w_ovl0 ex_env (CMount (bs "dev")) []) = ROk
+  /\ own_mounts_shown ex_cfg w_ovl1 = true
+  /\ states ex_cfg w_ovl1 [] = Some [(bs "base", st_mounted_busy); (bs "dev", st_mounted)]
+  /\ probe_spec ex_cfg w_ovl1 [] = true.
+Proof. vm_compute. repeat split; reflexivity. Qed.
+
+(* ---------------------------------------------------------------- refutations without the hypotheses *)
 Theorem C08_refuted_2 : probe_spec cfg_slash w_mounted um_slash = false.   (* BuildRoot "build/" *)
 Proof. vm_compute. reflexivity. Qed.
 Theorem C08_refuted_3 : probe_spec ex_cfg w_deep [] = false.               (* source 70 levels deep *)
 Proof. vm_compute. reflexivity. Qed.
 Theorem C08_refuted_4 : probe_spec ex_cfg w_dup [] = false.                (* duplicate layer name *)
 Proof. vm_compute. reflexivity. Qed.
-Theorem C08_refuted_5 : probe_spec ex_cfg w_type [] = false.               (* right name, wrong type *)
+Theorem C08_refuted_7 : probe_spec ex_cfg w_gone [] = false.               (* own bind, source removed later *)
 Proof. vm_compute. reflexivity. Qed.
-Theorem C08_refuted_6 : probe_spec ex_cfg w_ovl1 [] = false.               (* bind out of an overlay *)
+Theorem C08_refuted_8 : probe_spec ex_cfg w_devname [] = false.            (* device name taken for a bind source *)
 Proof. vm_compute. reflexivity. Qed.
